@@ -109,7 +109,7 @@ def rule_semiopen(ctx):
         A, B = val(fs, a["S"], a["E"]), val(fe, a["S"], a["E"])
         env = {"file_info.times": (a["t0"], a["t1"]), ps: A, pe: B}
         return bool(Interp(env, {"interval_overlaps": T.OV}).ev(ov[0]))
-    m = Model(["t0", "t1", "S", "E"], domain="box", bound=6, constraint=lambda a: a["t0"] <= a["t1"] and a["S"] < a["E"])
+    m = Model(["t0", "t1", "S", "E"], domain="box", bound=10 if ctx.tier == "thorough" else 6, constraint=lambda a: a["t0"] <= a["t1"] and a["S"] < a["E"])
     ok, wit, stt = m.compare(extracted, lambda a: a["t0"] < a["E"] and a["t1"] >= a["S"])
     ctx.models.append(dict(stt, rule="C01.semiopen", exhaustive=False))
     ctx.ob("FileSet.find.period", ok and cond is not None and any(n is ov[0] for n in ast.walk(cond)),
@@ -211,12 +211,13 @@ def rule_prune(ctx):
     fact = None
     if cp:
         s_arg, e_arg = norm(cp[0].args[1]), norm(cp[0].args[2])
-        sv = A.get(s_arg)
-        ev = A.get(e_arg)
-        fact = "%s = %s; %s = %s" % (s_arg, norm(sv.value) if sv else None, e_arg, norm(ev.value) if ev else None)
+        gflow = Flow(g)
+        sv = gflow.resolve(cp[0].args[1], at=cp[0], depth=3, stop=(gs, ge))
+        ev = gflow.resolve(cp[0].args[2], at=cp[0], depth=3, stop=(gs, ge))
+        fact = "%s = %s; %s = %s" % (s_arg, norm(sv), e_arg, norm(ev))
         unit = "self._get_time_resolution(subdir_chunk)[0]"
-        okt = sv is not None and ev is not None and norm(sv.value).replace(" ", "") == ("set_time_resolution(%s,%s)" % (gs, unit)).replace(" ", "") \
-            and norm(ev.value).replace(" ", "") == ("set_time_resolution(%s,%s)" % (ge, unit)).replace(" ", "")
+        okt = norm(sv).replace(" ", "") == ("set_time_resolution(%s,%s)" % (gs, unit)).replace(" ", "") \
+            and norm(ev).replace(" ", "") == ("set_time_resolution(%s,%s)" % (ge, unit)).replace(" ", "")
     ctx.ob("FileSet._get_search_dirs.truncate", okt, fact, "start_check / end_check = the search bounds truncated to the unit of this directory level, in this order",
            node=cp[0] if cp else g.node, func=g)
     # _check_placeholders comparison + model
@@ -233,7 +234,8 @@ def rule_prune(ctx):
     n = 0
     if a_coef is not None:
         rho1, rho2 = 3, 6
-        for t0, dlen, S, E in itertools.product(range(6, 24), range(0, rho1 + 1), range(6, 24), range(6, 25)):
+        hi_ = 36 if ctx.tier == "thorough" else 24
+        for t0, dlen, S, E in itertools.product(range(6, hi_), range(0, rho1 + 1), range(6, hi_), range(6, hi_ + 1)):
             if not S < E:
                 continue
             t1 = t0 + dlen
@@ -299,10 +301,16 @@ def rule_blacklist(ctx):
     ctx.rule("C01.blacklist", "T4 (boolean)", "filters split by the '!' prefix; a file is kept iff no black-listed placeholder matches")
     f = ctx.func(FILESET, "FileSet.find")
     dcs = [n for n in walk_no_nested(f.node) if isinstance(n, ast.DictComp) and norm(n.generators[0].iter) == "%s.items()" % f.params[6]]
-    white = [d for d in dcs if [norm(i) for i in d.generators[0].ifs] == ["not f.startswith('!')"]]
-    black = [d for d in dcs if [norm(i) for i in d.generators[0].ifs] == ["f.startswith('!')"]]
-    okw = len(white) == 1 and norm(white[0].key) == "f" and norm(white[0].value) == "v"
-    okb = len(black) == 1 and norm(black[0].key) in ("f.lstrip('!')", "f[1:]") and norm(black[0].value) == "convert(v)"
+    def kv(d):
+        t = d.generators[0].target
+        return (norm(t.elts[0]), norm(t.elts[1])) if isinstance(t, ast.Tuple) and len(t.elts) == 2 else ("?", "?")
+    white = [d for d in dcs if [norm(i) for i in d.generators[0].ifs] == ["not %s.startswith('!')" % kv(d)[0]]]
+    black = [d for d in dcs if [norm(i) for i in d.generators[0].ifs] == ["%s.startswith('!')" % kv(d)[0]]]
+    okw = len(white) == 1 and norm(white[0].key) == kv(white[0])[0] and norm(white[0].value) == kv(white[0])[1]
+    okb = len(black) == 1 and norm(black[0].key) in ("%s.lstrip('!')" % kv(black[0])[0], "%s[1:]" % kv(black[0])[0]) \
+        and isinstance(black[0].value, ast.Call) and len(black[0].value.args) == 1 and norm(black[0].value.args[0]) == kv(black[0])[1]
+    if not white and not black and not dcs:
+        raise AnalysisError("find: white/black list construction not recognised")
     ctx.ob("FileSet.find.filter_split", okw and okb, "white: %s; black: %s" % ([norm(d) for d in white], [norm(d) for d in black]),
            "keys without '!' -> white list (into the regex); keys with '!' -> black list under the stripped name", node=dcs[0] if dcs else f.node, func=f)
     gen = [n for n in walk_no_nested(f.node) if isinstance(n, ast.GeneratorExp) and len(n.generators) == 2]
@@ -353,16 +361,20 @@ def rule_sort_bundle(ctx):
     ctx.ob("FileSet.find.sort_default", norm(d.get("sort", ast.Constant(None))) == "True", "find(sort=%s)" % norm(d.get("sort")) if "sort" in d else "no default", "sort defaults to True",
            node=ctx.func(FILESET, "FileSet.find").node, func=ctx.func(FILESET, "FileSet.find"))
     ctx.rule("C01.bundle", "T6", "bundling only partitions the ordered sequence")
-    ge = [n for n in walk_no_nested(f.node) if isinstance(n, ast.GeneratorExp) and calls_in(n, "range")]
+    from ..flow import iteration_constructs
+    ge = [c for c in iteration_constructs(f.node) if isinstance(c["iter"], ast.Call) and dotted(c["iter"].func) == "range"]
     okb = False
     fact = None
     if ge:
         g = ge[0]
-        fact = norm(g)
-        r = calls_in(g, "range")[0]
-        i = norm(g.generators[0].target)
-        okb = norm(g.elt).replace(" ", "") == "files[%s:%s+%s]" % (i, i, bs) and [norm(a) for a in r.args] == ["0", "len(files)", bs]
-    ctx.ob("FileSet._prepare_find_return.bundle_int", okb, fact, "files[i:i+w] for i in range(0, len(files), w): stride == width, nothing dropped or repeated", node=ge[0] if ge else f.node, func=f)
+        fact = "%s for %s in %s" % ([norm(e) for e in g["elts"]], norm(g["target"]), norm(g["iter"]))
+        r = g["iter"]
+        i = norm(g["target"])
+        okb = len(g["elts"]) == 1 and norm(g["elts"][0]).replace(" ", "") == "files[%s:%s+%s]" % (i, i, bs) and [norm(a) for a in r.args] == ["0", "len(files)", bs] \
+            and not g["ifs"]
+    elif not [c for c in iteration_constructs(f.node)]:
+        raise AnalysisError("_prepare_find_return: integer bundling construct not recognised")
+    ctx.ob("FileSet._prepare_find_return.bundle_int", okb, fact, "files[i:i+w] for i in range(0, len(files), w): stride == width, nothing dropped or repeated", node=ge[0]["node"] if ge else f.node, func=f)
     none_arm = [s for s in f.body if isinstance(s, ast.If) and norm(s.test) == "%s is None" % bs]
     okn = bool(none_arm) and [norm(s) for s in none_arm[0].body] == ["yield from %s" % fi, "return"]
     ts = [s for s in walk_no_nested(f.node) if isinstance(s, ast.Assign) and norm(s.targets[0]) == "time_series"]
@@ -387,21 +399,40 @@ def rule_trunc_table(ctx):
             arms[t.comparators[0].value] = cur.body[0]
         cur = cur.orelse[0] if cur.orelse and isinstance(cur.orelse[0], ast.If) else None
     bad = []
-    for u, want in RESETS.items():
+
+    def fields(u, depth=0):
+        """field -> value set by the branch for unit u (following `set_time_resolution(x, 'v').replace(...)`)"""
         r = arms.get(u)
-        if r is None or not isinstance(r, ast.Return):
-            bad.append("%s: missing" % u)
-            continue
+        if r is None or not isinstance(r, ast.Return) or not isinstance(r.value, ast.Call) or depth > 3:
+            return None
         c = r.value
-        kw = {k.arg: norm(k.value) for k in c.keywords} if isinstance(c, ast.Call) else {}
-        if not (isinstance(c, ast.Call) and norm(c.func) == "%s.replace" % f.params[0] and set(kw) == want and all(v == "0" for v in kw.values())):
-            bad.append("%s: %s" % (u, norm(c)))
-    for u, extra in (("month", {"day": "1"}), ("year", {"month": "1", "day": "1"})):
-        r = arms.get(u)
-        ok = isinstance(r, ast.Return) and isinstance(r.value, ast.Call) and norm(r.value.func).replace('"', "'") == "set_time_resolution(%s, 'day').replace" % f.params[0] \
-            and {k.arg: norm(k.value) for k in r.value.keywords} == extra
-        if not ok:
-            bad.append("%s: %s" % (u, norm(r.value) if isinstance(r, ast.Return) else None))
+        if not (isinstance(c.func, ast.Attribute) and c.func.attr == "replace") or c.args:
+            return None
+        kw = {k.arg: norm(k.value) for k in c.keywords}
+        base = c.func.value
+        if norm(base) == f.params[0]:
+            return kw
+        if isinstance(base, ast.Call) and dotted(base.func) == "set_time_resolution" and len(base.args) == 2 and norm(base.args[0]) == f.params[0] \
+                and isinstance(base.args[1], ast.Constant):
+            inner = fields(base.args[1].value, depth + 1)
+            if inner is None:
+                return None
+            inner = dict(inner)
+            inner.update(kw)
+            return inner
+        return None
+    want_all = dict((u, {k: "0" for k in v}) for u, v in RESETS.items())
+    want_all["month"] = dict(want_all["day"], day="1")
+    want_all["year"] = dict(want_all["day"], day="1", month="1")
+    for u, want in want_all.items():
+        got = fields(u)
+        if got is None:
+            if u not in arms:
+                bad.append("%s: missing" % u)
+            else:
+                raise AnalysisError("set_time_resolution: branch '%s' is not a .replace(...) of the argument" % u)
+        elif got != want:
+            bad.append("%s: sets %s" % (u, got))
     ctx.ob("set_time_resolution", not bad, "branches deviating: %s" % (bad or "none"), "year/month via day; each unit zeroes exactly the finer fields", node=f.node, func=f)
     ctx.rule("C01.restable", "T3", "_temporal_resolution is strictly decreasing, covers the directory units, month >= 31 d, year >= 366 d")
     mod = ctx.mod(FILESET)
